@@ -44,6 +44,7 @@ def bits_term(r):
     return "(%d%%nat, %s, %d%%nat, %d, %s)" % (nkeys, cbytes(a["bits"]), nw, r["st"], cbool(r["res"] == "true"))
 
 
+P2P_ALLOC_FACTOR, P2P_ALLOC_CONST = 32, 1 << 20   # whole-process TotalAlloc while one stream is handled
 ALLOC_FACTOR, ALLOC_CONST = 64, 32768   # bytes allocated by one decode <= 64 * len(input) + 32 KiB
 
 
@@ -64,6 +65,7 @@ def run_p2p(ck, binp, scale, replay_in=None):
     except subprocess.TimeoutExpired:
         rc, err = -1, "timeout after 900 s"
     pending, done, ended, recent = {}, 0, False, []
+    per_class = {False: 0, True: 0}
     if os.path.exists(outp):
         for line in open(outp):
             line = line.strip()
@@ -79,11 +81,32 @@ def run_p2p(ck, binp, scale, replay_in=None):
                 recent = (recent + [r])[-3:]
                 pending.pop(r["i"], None)
                 done += 1
+                per_class[bool(r["resp"])] += 1
                 ck.count()
                 ck.nontrivial(("p", r["resp"], r["gen"], r.get("send", ""), r["d"][:32], len(r["d"])))
+                # hang / memory oracle per stream: the receiver's stream goroutine is gone within the deadline, and the process
+                # allocated at most P2P_ALLOC_FACTOR * len + P2P_ALLOC_CONST bytes meanwhile
+                n = len(r["d"]) // 2
+                ck.extra["p2p_max_settle_ms"] = max(ck.extra.get("p2p_max_settle_ms", 0), r.get("settle_ms", 0))
+                ck.extra["p2p_max_alloc"] = max(ck.extra.get("p2p_max_alloc", 0), r.get("alloc", 0))
+                why = None
+                if r.get("gleak", 0) > 0:
+                    why = "%d goroutine(s) still alive %d ms after the stream was closed (handler blocked)" % (r["gleak"], r.get("settle_ms", 0))
+                elif r.get("alloc", 0) > P2P_ALLOC_FACTOR * n + P2P_ALLOC_CONST:
+                    why = "%d bytes allocated for a %d-byte message (> %d*len+%d)" % (r["alloc"], n, P2P_ALLOC_FACTOR, P2P_ALLOC_CONST)
+                if why:
+                    name = "onResponse" if r["resp"] else "onRequest"
+                    f = dict(kind="input", key="c09:p:%s:%s" % (name, "hang" if r.get("gleak", 0) > 0 else "alloc"), case=r,
+                             what="p2p MessageProtocol %s: %s on raw stream bytes %s" % (name, why, r["d"][:200]))
+                    f["spec_violated"] = True
+                    f["theorem_or_correspondence"] = "C09 oracle: stream handlers terminate, memory bounded by the message size"
+                    ck.failures.append(f)
             elif r["phase"] == "end":
                 ended = True
     ck.extra["p2p_stream_cases"] = done
+    if rc == 0 and ended and not replay_in and min(per_class.values()) == 0:
+        ck.fail_obligation("harness-run:p2p", "p2p stream driver ran no case on the %s stream" % (
+            "response" if per_class[True] == 0 else "request"))
     if rc != 0 or not ended:
         if pending:
             for i, r in sorted(pending.items())[-1:]:
@@ -127,6 +150,13 @@ def evaluate(ck, recs, sample_cap):
                 f["theorem_or_correspondence"] = "C09_read_bytes_alloc_bounded (allocation <= remaining input) vs runtime.MemStats.TotalAlloc"
                 ck.failures.append(f)
             continue
+        if r["k"] == "v" and r.get("a", {}).get("gen") and r["st"] == 0 and r["res"] == "true" and \
+                r["a"]["gen"] not in ("valid", "valid-key/valid-sig"):
+            f = dict(kind="input", key="c09:v:%s:accepts-invalid-point" % r["f"], case=r,
+                     what="%s accepts a key list / signature containing an invalid point (%s)" % (r["f"], r["a"]["gen"]))
+            f["spec_violated"] = True
+            f["theorem_or_correspondence"] = "C09 oracle: nil / infinity / off-subgroup points make BLS verification fail"
+            ck.failures.append(f)
         if r["k"] == "s":
             bad = r["st"] in (2, 3) or r["sst"] in (2, 3)
             name = r["name"]
